@@ -130,6 +130,15 @@ fn handle(line: &str) -> String {
                 Err(_) => "ERR".to_string(),
             })
         }
+        "cls" => {
+            // Unicode classification (as std sees it) of every char of the string: cp:alnum,alpha,space
+            let src = String::from_utf8_lossy(&unhex(parts[1])).into_owned();
+            let mut s = String::from("OK");
+            for c in src.chars() {
+                s.push_str(&format!(" {}:{}{}{}", c as u32, c.is_alphanumeric() as u8, c.is_alphabetic() as u8, c.is_whitespace() as u8));
+            }
+            s
+        }
         "disasm" => {
             let prog = unhex(parts[1]);
             catch(move || {
